@@ -19,6 +19,10 @@
    with an error; nothing is committed for the failing request; blocks verified earlier stay;
    hooks were called only for completed segments; latest-synced is untouched; an explicit sync
    emits nothing, an announce-triggered one emits one error notification and un-caches the CID.
+   A fault may be followed by a second one at the very next request (k2): it matters when the first does not end the sync
+   at once (a hook failure, a fail-over) or when the client itself repeats the request (the retry without the IPNI path
+   after a 404 / 403 from a plain-HTTP publisher) -- whatever happens to that retry, the sync fails and nothing is latched.
+
    A publisher given with two addresses (cfg.addrs = 2, plain HTTP): a request that fails at transport level
    (connection reset, no answer within the timeout) is repeated on the next address, and the rest of the sync
    stays there; the faults of the plan sit on the first address.  The next sync starts at the first address again.
@@ -29,6 +33,7 @@
 EXTENDS Integers, Sequences, FiniteSets, TLC, VerifIO
 
 CONSTANTS N, Segs, Kinds, MaxFaulty, FIXED, EXPORT,
+          PairKinds,    \* kinds of a second fault at the very next request of the same sync ({}: single faults only)
           MaxAddrs      \* 1, or 2: the publisher may be given with a second address (plain HTTP) the client can fail over to
 Modes == {"plain", "libp2p"}
 Triggers == {"explicit", "announce"}
@@ -44,12 +49,15 @@ VARIABLES cfg,        \* [mode, trigger, seg, faults: Seq of [at, kind]]
           log         \* one record per finished sync: what the harness can observe
 vars == <<cfg, phase, pc, b, req, segblocks, segleft, over, store, latest, cached, noPath, rep, log>>
 
-Faults == [at : 1..(N + 1), kind : Kinds]
+Faults == [at : 1..(N + 1), kind : Kinds, k2 : PairKinds \cup {"none"}]      \* k2: what happens to request at + 1
 Configs == {[mode |-> m, trigger |-> t, seg |-> s, addrs |-> a, faults |-> f] :
               m \in Modes, t \in Triggers, s \in Segs, a \in 1..MaxAddrs, f \in UNION {[1..k -> Faults] : k \in 1..MaxFaulty}}
 FailOverKinds == {"reset", "stall"}      \* the request itself fails (no response): the client moves on to the next address
 Applicable(c) == /\ (c.addrs = 2 => c.mode = "plain")
                  /\ \A i \in 1..Len(c.faults) :
+                   /\ (c.faults[i].k2 = "hookfail" => c.seg > 0) /\ (c.faults[i].k2 = "cancel" => c.trigger = "explicit")
+                   \* a reset connection may be retried by the transport itself, which would consume the next request slot: resets do not pair
+                   /\ (c.faults[i].kind = "reset" => c.faults[i].k2 = "none") /\ c.faults[i].k2 # "reset"
                    /\ (c.faults[i].kind = "hookfail" => c.seg > 0)
                    /\ (c.faults[i].kind = "cancel" => c.trigger = "explicit")       \* announce-triggered syncs do not run under the caller's context
                    /\ (c.faults[i].kind \in BodyKinds \cup {"hookfail"} => ~(c.trigger = "explicit" /\ c.faults[i].at = 1))  \* request 1 is the head query
@@ -59,7 +67,10 @@ Init == /\ cfg \in {c \in Configs : Applicable(c)}
         /\ store = {} /\ latest = 0 /\ cached = FALSE /\ noPath = FALSE /\ rep = <<>> /\ log = <<>>
 
 Clean == phase > Len(cfg.faults)
-FaultAt(r) == IF ~Clean /\ ~over /\ cfg.faults[phase].at = r THEN cfg.faults[phase].kind ELSE "ok"
+FaultAt(r) == IF Clean \/ over THEN "ok"
+              ELSE IF cfg.faults[phase].at = r THEN cfg.faults[phase].kind
+              ELSE IF cfg.faults[phase].at + 1 = r /\ cfg.faults[phase].k2 # "none" THEN cfg.faults[phase].k2
+              ELSE "ok"
 FailsOver(k) == cfg.addrs = 2 /\ ~noPath /\ k \in FailOverKinds
 Has(c) == \E e \in store : e.cid = c
 StoredCids == {e.cid : e \in store}
@@ -114,7 +125,9 @@ Fetch ==
           ELSE Fail(k)
 
 (* the hook of the block fetched at request `at` calls FailSync; it takes effect when that segment ends *)
-FailingHook == ~Clean /\ cfg.faults[phase].kind = "hookfail" /\ req >= cfg.faults[phase].at
+FailingHook == /\ ~Clean
+               /\ \/ cfg.faults[phase].kind = "hookfail" /\ req >= cfg.faults[phase].at
+                  \/ cfg.faults[phase].k2 = "hookfail" /\ req >= cfg.faults[phase].at + 1
 
 (* After a block: continue the segment, or end the segment (hooks), or end the sync. *)
 NextBlock ==
